@@ -36,12 +36,12 @@ def run(model, res, tier):
     res.rule('R8', 'no cache or shared state')
     res.trusted += ['hxsa guard-fact engine (dominating if-return guards, interval facts)', 'hxsa abstract interpreter', 'CPython ast']
     em, singles = error_singletons(model)
-    _r1(model, res)
-    _r2(model, res, singles)
-    _r3(model, res)
-    _r4(model, res)
-    _r5_r6(model, res)
-    _r7(model, res, dict((msg, n) for n, msg in singles.items()))
+    H.safely(res, 'R1', 'r1', _r1, model, res)
+    H.safely(res, 'R2', 'r2', _r2, model, res, singles)
+    H.safely(res, 'R3', 'r3', _r3, model, res)
+    H.safely(res, 'R4', 'r4', _r4, model, res)
+    H.safely(res, 'R5', 'r5_r6', _r5_r6, model, res)
+    H.safely(res, 'R7', 'r7', _r7, model, res, dict((msg, n) for n, msg in singles.items()))
     keys = []
     for n in ('BASE', 'DECIMAL', 'DEC2HEX', 'HEX2DEC', 'ROMAN', 'ARABIC', 'FACT', 'FACTDOUBLE', 'MOD', 'QUOTIENT', 'ROUND', 'ROUNDUP',
               'ROUNDDOWN', 'CEILING', 'FLOOR', 'INT', 'EVEN', 'ODD', 'SIGN', 'COMPLEX', 'IMREAL', 'IMAGINARY'):
@@ -88,6 +88,14 @@ def _is_error_return(model, m, f, ret, facts):
                     isinstance(a.args[0], ast.Name) and a.args[0].id == v.id and 'XLError' in src(a.args[1]):
                 return True
     return False
+
+
+def _subterms(v):
+    yield v
+    if isinstance(v, Atom):
+        for a in v.args:
+            for x in _subterms(a):
+                yield x
 
 
 def _r2(model, res, singles):
@@ -506,6 +514,36 @@ def _r7(model, res, E):
                               '%s computes %r: floor-division / modulo of floats act on the exact binary values (1 // 0.1 is 9.0), so a number that '
                               'is already a multiple of a decimal significance comes out one unit too low; the adjacent multiple must come from '
                               'floor/ceil of the true quotient' % (name, o.value), func=f.name)
+    # ROUNDUP / ROUNDDOWN scale by 10**digits for every digits: a precomputed table of powers stands for 10**i on the whole range of
+    # indices python accepts for it - negative ones included (t[-2] is the last but one entry, not 10**-2)
+    from ..absint import ListV as _ListV
+    for name in ('ROUNDUP', 'ROUNDDOWN', 'ROUND'):
+        if name not in model.registry:
+            continue
+        m, f = model.registered(name)
+        try:
+            outs = H.run_function(model, H.registry_func(model, name), lambda: [Sym('float', 'x'), Sym('int', 'k')])
+        except Unmodelled as e:
+            res.ob('R7', name, 'scale factor', True, 'undecided: %s' % e)
+            continue
+        seen_tables = set()
+        for o in outs:
+            if o.kind != 'return' or o.imprecise:
+                continue
+            for t in _subterms(o.value):
+                if isinstance(t, Atom) and t.op == 'item' and len(t.args) == 2 and isinstance(t.args[0], _ListV) and getattr(t.args[1], 'name', None) == 'k' \
+                        and all(isinstance(i_, Const) for i_ in t.args[0].items):
+                    vals = [i_.value for i_ in t.args[0].items]
+                    if tuple(vals) in seen_tables:
+                        continue
+                    seen_tables.add(tuple(vals))
+                    bad_idx = [i_ for i_ in range(-len(vals), len(vals)) if vals[i_] != 10 ** i_]
+                    res.ob('R7', name, {'table of scale factors': '%d entries' % len(vals)}, not bad_idx, 'differs from 10**i at i = %s' % bad_idx[:4] if bad_idx else '')
+                    if bad_idx:
+                        res.violation('R7', 'function:%s:scale-table' % name, m.where(f),
+                                      '%s takes its scale factor from a table indexed by the digits argument; for digits = %d the table gives %r '
+                                      'where 10**digits is %r (a negative index counts from the end of the table): the result is then not a multiple '
+                                      'of 10^-digits' % (name, bad_idx[0], vals[bad_idx[0]], 10 ** bad_idx[0]), case={'digits': bad_idx[0]}, func=f.name)
     # an omitted significance means 1: CEILING(x) and FLOOR(x) are CEILING(x, 1) and FLOOR(x, 1) on every trace
     for name in ('CEILING', 'FLOOR'):
         if name not in model.registry:
